@@ -257,7 +257,7 @@ class Fault:
          cls file    : kind truncate, pos = number of bytes kept
          cls multi   : kind dup_kids_all (every /Kids element written twice at every level)
          mode nocache (cycle faults and dup_kids_all): the entry points are run with their caches off
-         cls xrefent : site = xrefent:k/n, kind ent_dangling|ent_other|ent_mid|ent_free|ent_in_self|ent_in_missing|
+         cls xrefent : site = xrefent:k/n, kind ent_dangling|ent_other|ent_mid|ent_free|ent_in_self|ent_in_cycle2|ent_in_missing|
                                                 ent_in_nonstream|ent_idx_big"""
 
     def __init__(self, d):
@@ -474,6 +474,7 @@ def _assemble_once(seed, f, prevlay, header):
     nrev = len(seed.revs)
     applied = [0]
     dup_applied = [0]
+    all_stm_ids = []          # object numbers of the object streams written so far (all revisions)
     newest = {}
     for k, rev in enumerate(seed.revs):
         for n in rev.objects:
@@ -581,6 +582,7 @@ def _assemble_once(seed, f, prevlay, header):
             st = Stream({"Type": Name("ObjStm"), "N": len(packed), "First": len(hd), "Filter": Name("FlateDecode")},
                         zlib.compress(hd + b"\n".join(bodies) + b"\n"))
             write_direct(stm_id, emit_object(stm_id, st, "objstm:%d" % k))
+            all_stm_ids.append(stm_id)
             for i, n in enumerate(packed):
                 entries[n] = (2, stm_id, i)
 
@@ -609,6 +611,12 @@ def _assemble_once(seed, f, prevlay, header):
                 ent[n] = (0, 0, 1)
             elif f.kind == "ent_in_self":
                 ent[n] = (2, n, 0)
+            elif f.kind == "ent_in_cycle2":
+                # n is "stored in" m and m "stored in" n; m: another object stream of the document when there is one
+                cands = [m for m in all_stm_ids if m != n] or others or [1]
+                m = cands[0]
+                ent[n] = (2, m, 0)
+                ent[m] = (2, n, 0)
             elif f.kind == "ent_in_missing":
                 ent[n] = (2, top + 30, 0)
             elif f.kind == "ent_in_nonstream":
@@ -629,8 +637,12 @@ def _assemble_once(seed, f, prevlay, header):
             lo, hi = min(ent), max(ent)
             for m in range(lo, hi + 1):
                 ent.setdefault(m, (0, 0, 0))
+            listed = dict(ent)
             ent = entry_faults(ent, hi)
-            lay.entries.append(dict(ent))
+            lay.entries.append(listed if len(ent) != len(listed) else dict(ent))   # (a fault may add an entry)
+            lo, hi = min(ent), max(ent)
+            for m in range(lo, hi + 1):
+                ent.setdefault(m, (0, 0, 0))
             rows = []
             for m in sorted(ent):
                 t, a, b = ent[m]
